@@ -2307,28 +2307,39 @@ class WBEMConnection:  # pylint: disable=too-many-instance-attributes
 
         # #  Original code return tup_tree
 
-        def typed_value(value, type_):
+        def typed_value(value, type_, element):
             """
             Convert the CIM-XML string value(s) of a RETURNVALUE or PARAMVALUE
             element into CIM data type objects.
             """
-            if type_ == 'boolean':
-                # cimvalue() uses Python truth testing, which would turn the
-                # CIM-XML string 'FALSE' into True.
-                if isinstance(value, list):
-                    return [v if v is None else tp.unpack_boolean(v)
-                            for v in value]
-                if isinstance(value, str):
-                    return tp.unpack_boolean(value)
-            return cimvalue(value, type_)
+            try:
+                if type_ == 'boolean':
+                    # cimvalue() uses Python truth testing, which would turn
+                    # the CIM-XML string 'FALSE' into True.
+                    if isinstance(value, list):
+                        return [v if v is None else tp.unpack_boolean(v)
+                                for v in value]
+                    if isinstance(value, str):
+                        return tp.unpack_boolean(value)
+                return cimvalue(value, type_)
+            except (TypeError, ValueError) as exc:
+                new_exc = CIMXMLParseError(
+                    _format("{0} in response of method {1} has a value {2!A} "
+                            "that is invalid for its type {3!A}: {4}",
+                            element, methodname, value, type_, exc),
+                    conn_id=self.conn_id)
+                new_exc.__cause__ = None
+                raise new_exc
 
         # Convert optional RETURNVALUE into a Python object
         returnvalue = None
 
         if tup_tree and tup_tree[0][0] == 'RETURNVALUE':
 
+            # The PARAMTYPE attribute is optional in the DTD
             returnvalue = typed_value(tup_tree[0][2],
-                                      tup_tree[0][1]['PARAMTYPE'])
+                                      tup_tree[0][1].get('PARAMTYPE', None),
+                                      'RETURNVALUE element')
             tup_tree = tup_tree[1:]
 
         # Convert zero or more PARAMVALUE elements into dictionary
@@ -2336,10 +2347,18 @@ class WBEMConnection:  # pylint: disable=too-many-instance-attributes
         output_params = NocaseDict()
 
         for p in tup_tree:
+            if isinstance(p[1], dict):
+                # Not an unpacked PARAMVALUE, but another element
+                raise CIMXMLParseError(
+                    _format("Unexpected {0} child element of METHODRESPONSE "
+                            "for method {1} (RETURNVALUE is allowed once, "
+                            "before any PARAMVALUE)", p[0], methodname),
+                    conn_id=self.conn_id)
             if p[1] == 'reference':
                 output_params[p[0]] = p[2]
             else:
-                output_params[p[0]] = typed_value(p[2], p[1])
+                output_params[p[0]] = typed_value(
+                    p[2], p[1], _format("PARAMVALUE element {0!A}", p[0]))
 
         return (returnvalue, output_params)
 
